@@ -19,6 +19,8 @@ struct Rec {
 	fail_unwatch: Vec<String>,
 	fail_with_path: bool,
 	fail_kind: String,
+	fail_kind_other: bool,
+	unwatch_notfound: bool,
 	// (call index, change, position of the change in the case) performed from inside that watch/unwatch call
 	inject: Vec<(usize, Value, usize)>,
 	config: Option<Arc<Config>>,
@@ -102,7 +104,8 @@ impl notify::Watcher for RecWatcher {
 				"enospc" => notify::Error::io(std::io::Error::from_raw_os_error(28)),
 				_ => notify::Error::generic("injected watch failure"),
 			};
-			return Err(if r.fail_with_path { e.add_path(path.to_owned()) } else { e });
+			// (the path an error names may be the requested one, or -- as inotify does for a recursive watch -- one below it)
+			return Err(if r.fail_with_path { e.add_path(if r.fail_kind_other { path.join("sub/dir") } else { path.to_owned() }) } else { e });
 		}
 		let reg = &mut r.instances[self.idx].1;
 		reg.retain(|(p, _)| p != path);
@@ -115,7 +118,7 @@ impl notify::Watcher for RecWatcher {
 		let name = path.file_name().unwrap().to_string_lossy().into_owned();
 		r.calls.push(format!("unwatch({},{})", self.idx, name));
 		if r.fail_unwatch.contains(&name) {
-			return Err(notify::Error::generic("injected unwatch failure"));
+			return Err(if r.unwatch_notfound { notify::Error::watch_not_found() } else { notify::Error::generic("injected unwatch failure") });
 		}
 		let reg = &mut r.instances[self.idx].1;
 		if let Some(i) = reg.iter().position(|(p, _)| p == path) {
@@ -365,6 +368,8 @@ async fn run(case: Value, root: &Path) -> Value {
 		r.fail_unwatch = strs(&case["fail_unwatch"]);
 		r.fail_with_path = case["fail_with_path"].as_bool().unwrap_or(false);
 		r.fail_kind = case["fail_kind"].as_str().unwrap_or("generic").to_owned();
+		r.fail_kind_other = case["fail_path_other"].as_bool().unwrap_or(false);
+		r.unwatch_notfound = case["unwatch_kind"] == "notfound";
 		r.inject = case["changes"].as_array().unwrap().iter().enumerate().filter(|(_, c)| c["inside_call"].is_u64()).map(|(k, c)| (c["inside_call"].as_u64().unwrap() as usize, c.clone(), k)).collect();
 	}
 	let sh2 = sh.clone();
